@@ -167,7 +167,9 @@ pub struct SimSource(pub Rc<RefCell<SrcState>>);
 
 impl SimSource {
     pub fn new(data: Rc<Vec<u8>>, cfg: SourceCfg) -> Self {
-        let budget = 16 * data.len() as u64 + 4096;
+        // calls after which the source stops recording (bounded memory in a runaway loop); a run
+        // that exceeds it yields no verdict
+        let budget = 2_000_000;
         SimSource(Rc::new(RefCell::new(SrcState {
             data,
             cfg,
